@@ -58,7 +58,9 @@ def reference(spec, img, rng_seed):
         lo = (max(1, int((1 - fr['crop_bottom']) * H) - int(fr['crop_top'] * H)),
               max(1, int((1 - fr['crop_right']) * W) - int(fr['crop_left'] * W)),
               max(1, int((1 - fr['crop_far']) * D) - int(fr['crop_close'] * D)))
-        return 'subwindow', (lo, (int(fr['crop_top'] * H), int(fr['crop_left'] * W), int(fr['crop_close'] * D)))
+        # the far faces: at or beyond (1 - fraction) * extent (and at least one voxel after the near face)
+        far = (int((1 - fr['crop_bottom']) * H), int((1 - fr['crop_right']) * W), int((1 - fr['crop_far']) * D))
+        return 'subwindow', (lo, (int(fr['crop_top'] * H), int(fr['crop_left'] * W), int(fr['crop_close'] * D)), far)
     if c == 'CropAndPad' and not a.get('keep_size', True) and (isinstance(a.get('px'), (tuple, list)) or isinstance(a.get('percent'), (tuple, list))) \
             and all(isinstance(v, (int, float)) for v in (a.get('px') or a.get('percent'))):
         # documented: six entries = top, bottom, left, right, close, far; negative crops that many voxels off the
@@ -112,7 +114,7 @@ def check(spec, case, viol):
             bad = ('map %s' % lat, 'a contiguous window')
     elif kind == 'subwindow':
         o3 = out[..., 0] if out.ndim == 4 else out
-        lo, max_off = ref
+        lo, max_off, far = ref
         lat = geom.derive_lattice(o3, shape)
         if any(o < l or o > n for o, l, n in zip(out.shape[:3], lo, shape)):
             bad = ('shape %s' % (out.shape,), 'each extent between %s and the input extent %s' % (lo, tuple(shape)))
@@ -121,6 +123,8 @@ def check(spec, case, viol):
         elif lat is not None and (lat['perm'] != [0, 1, 2] or any(lat['sign'][a_] != 1 for a_ in range(3) if a_ not in lat['ambiguous'])
                                   or any(lat['off'][a_] > max_off[a_] for a_ in range(3) if a_ not in lat['ambiguous'])):
             bad = ('map %s' % lat, 'a contiguous window starting within the first %s voxels' % (max_off,))
+        elif lat is not None and any(lat['off'][a_] + out.shape[a_] < min(far[a_], shape[a_]) for a_ in range(3) if a_ not in lat['ambiguous']):
+            bad = ('window origin %s size %s' % (lat['off'], out.shape[:3]), 'every far face at or beyond %s of %s' % (far, tuple(shape)))
     elif kind == 'pad':
         a = spec['args']
         H, W, D = shape
@@ -208,6 +212,19 @@ def run(seed=0, tier='quick', hints=None, broken=False):
             check(c, case, viol)
             evals += 1
             seen.add((c['cls'], shape, case['channels']))
+    # RandomCropFromBorders: one face at a time (the other five fractions zero: those faces must not move), and the
+    # opposite pairing (near face large, far face small and vice versa), under end-point draws
+    faces = ('crop_top', 'crop_bottom', 'crop_left', 'crop_right', 'crop_close', 'crop_far')
+    for rep in range(1 if tier == 'quick' else 10):
+        fcfgs = [{f: (0.5 if f == g else 0.0) for f in faces} for g in faces]
+        fcfgs += [{f: (0.4 if i % 2 == par else 0.1) for i, f in enumerate(faces)} for par in (0, 1)]
+        for fr in fcfgs:
+            shape = tuple(rng.sample([6, 8, 10, 12, 14, 20], 3))
+            for sd in [R.EXT_BASE + pat for pat in R.EXT_PATTERNS[:4]] + [rng.randint(0, 10 ** 6)]:
+                case = {'shape': list(shape), 'seed': sd, 'channels': rng.choice([None, None, 1, 3])}
+                check(S.L('RandomCropFromBorders', **fr), case, viol)
+                evals += 1
+            seen.add(('RandomCropFromBorders-face', repr(sorted(fr.items()))))
     # CropAndPad: every axis pattern once (crop / pad / mixed on one axis, others untouched) against the documented window
     for rep in range(1 if tier == 'quick' else 12):
         for c in S.crop_and_pad_sweep(rng):
